@@ -478,11 +478,11 @@ fn rule_for(prop: &str) -> String {
         "C03" => "oracle: under S0, starting vertices pulled when row k is produced == least number of leading starting vertices contributing k rows (per-start counts measured with the engine itself), nothing pulled before the first next(), no adapter event after drop; consumer stops at tape-chosen k; ",
         "C04" => "oracle: row sequence with hint pruning at a tape-chosen subset of sites equals the hints-ignored run; ",
         "C05" => "oracle: every resolve_property(vid, p) has p in required_properties() at that call and in the list reported when vid was resolved; ",
-        "C09" => "oracle: no panic outside the harness and no run exceeding the event cap, under S0, random schedules with hints, consumer cancellation and interleaving; ",
-        "C13" => "oracle: row keys == declared outputs == names derived from the query text; values valid for the declared type; declared type == documented rule; ",
+        "C09" => "oracle: no panic outside the harness and no run exceeding the event cap, under S0, random schedules with hints, consumer cancellation, interleaving and the BasicAdapter flavour; in a fifth of the cases some argument values are deliberately outside the harness's typing of the variable (null, list with a null element, other base type) and the engine decides whether to accept them (refused => discarded); ",
+        "C13" => "oracle: row keys == declared outputs == names derived from the query text; values valid for the declared type; declared type == documented rule; an engine panic located inside fn construct_outputs (the engine's own debug assertion that row keys == declared output names, which this debug-assertion build hits instead of handing out the malformed row) counts as a violation; ",
         "C21" => "oracle: every adapter call names a defined type/property/edge/subtype, passes exactly the declared parameters (explicit, default or null) and only instances of the named type; ",
         "C22" => "workload biased to folds with count filters; oracle: rows equal the full-materialisation model and are unchanged by observation transforms; ",
-        "C23" => "oracle: metamorphic relation between the original and the transformed query, each under an independently drawn schedule; ",
+        "C23" => "oracle: metamorphic relation between the original and the transformed query, each under an independently drawn schedule; relations: add-filter / add-count-filter => subset, raise recursion depth => superset, make edge @optional => superset, parameterised edge == equivalent filter, = == one_of [x] (properties and fold counts), filter + exact negation partition the rows (properties and fold counts, outside optional scopes), rename outputs/tags, reorder sibling selections; ",
         "C25" => "each case = one generated schema; for it the single-fault space {property, neighbors, coercion} x every (type, field / coercion target) site the checker reaches x {swap adjacent contexts, rotate, reverse, non-null property / one neighbor / true coercion for a context without an active vertex} x position {first, middle, last} is enumerated completely, one fault per run of the real check_adapter_invariants, the adapter pulling its input in chunks of a tape-chosen size; oracle: no fault => returns; fault fired => panics; every documented site is reached; evaluations counts schemas, coverage.single_fault_runs counts checker runs; ",
         "C20" => "each case = one generated schema; (a) the real check_adapter_invariants on the real SchemaAdapter, and the engine run over SchemaAdapter behind an order-preserving wrapper that reads ahead in tape-chosen chunks and injects contexts without an active vertex (answers for them must be null / no neighbors / false, in place); (b) generated introspection queries over the meta-schema, engine-over-SchemaAdapter rows equal the reference model evaluated on the harness's own view of its schema AST (multisets, fold lists canonicalised: hash order is not part of the claim); ",
         "C15" => "oracle: rows through AdapterTap equal direct rows; trace survives a RON round trip; replay without the data source reproduces the rows; ",
